@@ -138,6 +138,7 @@ func createCron(node gen.Node) *cron {
 			}()
 		}
 
+		lib.VerifPoint(c, "cron:tick-drained")
 		now := time.Now()
 		next := now.Add(time.Minute).Truncate(time.Minute)
 		in := next.Sub(now)
